@@ -3,9 +3,10 @@
 -/
 import SV.Model.C13
 import SV.Generated.C13
+import SV.Proofs.C13
 
 namespace SV.Props.C13
-open SV.Model.C13
+open SV.Model.C13 SV.Spec.C13 SV.Proofs.C13
 
 /-! ### what the source says about its entropy sites (table regenerated on every run) -/
 
@@ -169,5 +170,107 @@ example : Inter [[(1, 10), (1, 11), (3, 30)], [(2, 20)]] [(1, 10), (2, 20), (1, 
   refine Inter.take [] [[]] _ _ _ ?_
   refine Inter.take [] [[]] _ _ _ ?_
   exact Inter.done _ (by simp)
+
+/-! ### the state that workers share: lazily initialised members of the schema object
+
+The theorems above take the requests of an operation as given.  What a worker obtains from the schema object while
+the other workers are running is covered here: `lrun` is the transition system of workers asking for a lazily built
+cell (check / build / publish, optionally under a lock), over every schedule. -/
+
+/-- **Publish after build (or build under the readers' lock) ⇒ every worker finds the complete object**, for every
+    number of workers and every interleaving of their steps. -/
+theorem lazy_cell_every_worker_sees_the_built_value (c : LCfg) (hc : c.parts ≤ c.publishAt ∨ c.locked = true)
+    (sched : List Tid) : CellSafe c (lrun c sched) :=
+  (lrun_inv c hc sched).done_full
+
+/-- the hypothesis is necessary: `self._x = obj` before the loop that fills `obj`, no lock — the second worker finds the
+    attribute set, uses the object and sees none of its two parts -/
+theorem publish_before_build_unsafe :
+    (lrun ⟨2, 0, false⟩ [0, 0, 1, 1]).pc 1 = .done 0 ∧ ¬ CellSafe ⟨2, 0, false⟩ (lrun ⟨2, 0, false⟩ [0, 0, 1, 1]) := by
+  have h : (lrun ⟨2, 0, false⟩ [0, 0, 1, 1]).pc 1 = .done 0 := by decide
+  exact ⟨h, fun hs => absurd (hs 1 0 h) (by decide)⟩
+
+/-- the same early assignment is harmless when the guarded block runs under a lock that readers take too -/
+theorem publish_before_build_under_lock_safe (sched : List Tid) : CellSafe ⟨2, 0, true⟩ (lrun ⟨2, 0, true⟩ sched) :=
+  lazy_cell_every_worker_sees_the_built_value _ (Or.inr rfl) sched
+
+/-- two workers may both find the attribute missing and both build: each still ends with a complete object -/
+example : (lrun ⟨2, 2, false⟩ [0, 1, 0, 1, 0, 1, 0, 1, 0, 1, 0, 1]).pc 0 = .done 2 ∧
+    (lrun ⟨2, 2, false⟩ [0, 1, 0, 1, 0, 1, 0, 1, 0, 1, 0, 1]).pc 1 = .done 2 := by decide
+
+/-- every lazily initialised member found in the source assigns `self._x` after the object is built, or under a lock -/
+theorem lazy_members_publish_after_build_or_locked :
+    (SV.Generated.C13Shared.lazyMembers.all fun (m : LazyRow) => m.publishAfterBuild || m.lock != "") = true := by decide
+
+/-- the table is about the members the workers use: the converted components and the resolver are in it -/
+theorem lazy_members_table_covers_components_and_resolver :
+    (SV.Generated.C13Shared.lazyMembers.any fun (m : LazyRow) => m.member == "_rewritten_components") = true ∧
+    (SV.Generated.C13Shared.lazyMembers.any fun (m : LazyRow) => m.member == "_resolver") = true := by decide
+
+/-- table and transition system together: for every lazily initialised member of the schema object as it is written in
+    the source, under every schedule, every worker that uses it finds it completely built -/
+theorem every_lazy_member_is_cell_safe (m : LazyRow) (hm : m ∈ SV.Generated.C13Shared.lazyMembers) (sched : List Tid) :
+    CellSafe m.cfg (lrun m.cfg sched) := by
+  have hall := lazy_members_publish_after_build_or_locked
+  rw [List.all_eq_true] at hall
+  have h := hall m hm
+  refine lazy_cell_every_worker_sees_the_built_value _ ?_ sched
+  simp only [LazyRow.cfg]
+  cases hp : m.publishAfterBuild
+  · right; simpa [hp] using h
+  · left; simp
+
+/-! ### the state that workers share: the resolver's stack of resolution scopes -/
+
+/-- **Lock held during resolution ⇒ every thread reads its own scope.**  If every access to the shared stack (pushes,
+    pops, reads of the current scope, reads of the whole stack for the cache key) is made by the thread that holds the
+    lock, and a thread leaves the stack as it found it when it lets the lock go, then in every interleaving every read
+    returns exactly what it returns when the thread has the stack for itself. -/
+theorem locked_stack_reads_own_scope (base : List Scope) (tr : List SEv) (h : disc base none base tr = true) :
+    sharedObs base tr = privObs (fun _ => base) tr :=
+  disc_obs base tr none base (fun _ => base) h ⟨rfl, fun _ => rfl⟩
+
+/-- non-vacuity: two threads, nested resolution, re-entered lock -/
+example : disc [0] none [0]
+    [(0, .acq), (0, .readAll), (0, .readTop), (0, .push 5), (0, .acq), (0, .readTop), (0, .push 6), (0, .pop), (0, .rel),
+     (0, .pop), (0, .rel), (1, .acq), (1, .readAll), (1, .readTop), (1, .push 7), (1, .pop), (1, .rel)] = true := by decide
+
+/-- the lock is taken for the cache lookup only and released while the reference is resolved: the second thread resolves
+    its relative reference against the first thread's scope -/
+theorem lock_released_during_resolution_reads_foreign_scope :
+    let tr : List SEv := [(0, .acq), (0, .rel), (0, .readTop), (0, .push 5), (1, .acq), (1, .rel), (1, .readTop),
+                          (1, .push 7), (1, .pop), (0, .pop)]
+    disc [0] none [0] tr = false ∧ sharedObs [0] tr = [(0, [0]), (1, [5])] ∧
+      privObs (fun _ => [0]) tr = [(0, [0]), (1, [0])] := by decide
+
+/-- the cache key is computed from the stack before the lock is taken: it is computed from the other thread's scopes -/
+theorem key_read_before_lock_reads_foreign_scope :
+    let tr : List SEv := [(0, .readAll), (0, .acq), (0, .readTop), (0, .push 5), (1, .readAll), (0, .pop), (0, .rel),
+                          (1, .acq), (1, .readTop), (1, .push 7), (1, .pop), (1, .rel)]
+    disc [0] none [0] tr = false ∧ sharedObs [0] tr = [(0, [0]), (0, [0]), (1, [5, 0]), (1, [0])] ∧
+      privObs (fun _ => [0]) tr = [(0, [0]), (0, [0]), (1, [0]), (1, [0])] := by decide
+
+/-- a second code path (the iteration over operations) moves the stack without that lock: a thread that does hold the
+    lock still resolves against the iterating thread's scope -/
+theorem second_path_without_the_lock_reads_foreign_scope :
+    let tr : List SEv := [(0, .push 9), (1, .acq), (1, .readTop), (1, .push 7), (1, .pop), (1, .rel), (0, .pop)]
+    disc [0] none [0] tr = false ∧ sharedObs [0] tr = [(1, [9])] ∧ privObs (fun _ => [0]) tr = [(1, [0])] := by decide
+
+/-- in `_rewrite_references` every access that resolves a reference or moves the scope stack is made under one and the
+    same lock (the reads of `_scopes_stack` for the cache key are the subject of the next theorem) -/
+theorem inlining_resolution_under_one_lock :
+    SV.Generated.C13Shared.inliningLock != "" ∧
+    (SV.Generated.C13Shared.resolverSites.all fun s =>
+      !(isInlining s.1 && touchesStack s.2.1 && s.2.1 != "_scopes_stack") ||
+        s.2.2 == SV.Generated.C13Shared.inliningLock) = true ∧
+    (SV.Generated.C13Shared.resolverSites.any fun s => isInlining s.1 && s.2.1 == "resolving") = true := by decide
+
+/-- every access to the shared resolver is under that lock, or belongs to one of the two classes that the source as found
+    leaves outside it (the key computation; the users other than inlining) — uniformly per class, never a mixture -/
+theorem resolver_sites_uniform :
+    (SV.Generated.C13Shared.resolverSites.all fun s =>
+      !touchesStack s.2.1 || s.2.2 == SV.Generated.C13Shared.inliningLock ||
+        (isInlining s.1 && s.2.1 == "_scopes_stack" && !SV.Generated.C13Shared.keyReadUnderLock && s.2.2 == "") ||
+        (!isInlining s.1 && !SV.Generated.C13Shared.otherSitesUnderLock && s.2.2 == "")) = true := by decide
 
 end SV.Props.C13
